@@ -16,7 +16,7 @@
 #define TK 0      // 0 CallbackList  1 EventDispatcher  2 EventQueue  3 HeterEventDispatcher
 #endif
 #ifndef RK
-#define RK 0      // 0 CounterRemover  1 ConditionalRemover (condition takes the arguments)  2 ConditionalRemover (condition takes no arguments)
+#define RK 0      // 0 CounterRemover  1 ConditionalRemover (condition takes the arguments)  2 (condition takes no arguments)  3 (condition callable both ways)
 #endif
 #define EV 4
 
@@ -98,6 +98,7 @@ static void body_other(uint32_t) { g_other++; }
 extern "C" void harness()
 {
 	g = new G(); g->t = new T(); g->budget = NB;
+	int evVar = EV;            // the event is passed through a caller variable that is reused afterwards
 	auto hL0 = add_plain(g->t, &body_L0);
 	unsigned how = vf_choose(3);          // registered through append / prepend / insert-before-L0
 #if TK != 0
@@ -111,7 +112,8 @@ extern "C" void harness()
 #if TK == 0
 		if(how == 0) rm->append(&body_W, g->n); else if(how == 1) rm->prepend(&body_W, g->n); else rm->insert(&body_W, hL0, g->n);
 #else
-		if(how == 0) rm->appendListener(EV, &body_W, g->n); else if(how == 1) rm->prependListener(EV, &body_W, g->n); else rm->insertListener(EV, &body_W, hL0, g->n);
+		if(how == 0) rm->appendListener(evVar, &body_W, g->n); else if(how == 1) rm->prependListener(evVar, &body_W, g->n); else rm->insertListener(evVar, &body_W, hL0, g->n);
+		evVar = EV + 7;
 #endif
 		if(destroyHelperFirst) { delete rm; rm = nullptr; vf_cover(COV_HELPER_DESTROYED); }
 		add_plain(g->t, &body_L2);
@@ -132,13 +134,18 @@ extern "C" void harness()
 		auto * rm = new eventpp::ConditionalRemover<T>(*g->t);
 #if RK == 1
 		auto cond = [](uint32_t a) -> bool { return cond_eval(true, a); };
+#elif RK == 3
+		// callable both with and without the trigger's arguments: it must be given them
+		struct BothWays { bool operator()() const { vf_assert(false, 155); return false; } bool operator()(uint32_t a) const { return cond_eval(true, a); } };
+		BothWays cond;
 #else
 		auto cond = []() -> bool { return cond_eval(false, 0); };
 #endif
 #if TK == 0
 		if(how == 0) rm->append(&body_W, cond); else if(how == 1) rm->prepend(&body_W, cond); else rm->insert(&body_W, hL0, cond);
 #else
-		if(how == 0) rm->appendListener(EV, &body_W, cond); else if(how == 1) rm->prependListener(EV, &body_W, cond); else rm->insertListener(EV, &body_W, hL0, cond);
+		if(how == 0) rm->appendListener(evVar, &body_W, cond); else if(how == 1) rm->prependListener(evVar, &body_W, cond); else rm->insertListener(evVar, &body_W, hL0, cond);
+		evVar = EV + 7;
 #endif
 		if(destroyHelperFirst) { delete rm; rm = nullptr; vf_cover(COV_HELPER_DESTROYED); }
 		add_plain(g->t, &body_L2);
